@@ -11,6 +11,7 @@ Verdict: a header that was stored although a clause of C29 forbids it, or a cano
 contract's getters) that is not the ancestor path of a stored header of maximal total difficulty, is a VIOLATION.
 A difference from the implementation-shaped prediction that keeps the property is DRIFT (reported, exit 0).
 """
+import concurrent.futures
 import json
 import os
 
@@ -78,30 +79,42 @@ def run(ctx):
             plan.append((fam, "F4" if q else "F5", "F"))
         if not q:
             plan.append((fam, "B3", "B"))
-    for fam, g, c in plan:
-        edges = ctx.gen("MCPoSA", "PoSA_%s_%s_gen.cfg" % (fam, g), "EDGE", timeout=2400)
-        if len(edges) < 500:
-            ctx.fail("too few edges from PoSA_%s_%s_gen.cfg: %d" % (fam, g, len(edges)))
-        ctx.sample({"family": fam, "cfg": g, "edge": edges[len(edges) // 3]["e"]})
-        for router in FAMILIES[fam]:
-            s = _replay(ctx, b, router, c, edges, stats, "edges %s" % g)
-            if s["edges"] + s["abandoned"] + s["skipped_no_rule"] != len(edges) and not ctx.violations:
-                ctx.fail("driver replayed %d of %d edges (%s)" % (s["edges"], len(edges), router))
-    # long behaviours
+    # TLC generation runs are single-worker (each edge printed once, shortest history first), so several of them run side by
+    # side: jobs are taken in groups (bounded memory), generated in parallel, then replayed one router after the other.
     nb = 12 if q else 60
     sims = [("bsc", "B"), ("heco", "B")] if q else [("bsc", "A"), ("bsc", "B"), ("heco", "B"), ("pixie", "A"), ("clique", "D"), ("bor", "P")]
-    for fam, c in sims:
-        if fam not in fams:
-            continue
-        r = ctx.tlc("MCPoSA", "PoSA_%s_%s_sim.cfg" % (fam, c), workers=1, simulate="num=1", depth=nb * 17 + 1, timeout=2400)
+    jobs = [("edges", fam, g, c) for fam, g, c in plan] + [("sim", fam, None, c) for fam, c in sims if fam in fams]
+
+    def generate(job):
+        kind, fam, g, c = job
+        if kind == "edges":
+            return ctx.gen("MCPoSA", "PoSA_%s_%s_gen.cfg" % (fam, g), "EDGE", timeout=2400, heap="4g")
+        r = ctx.tlc("MCPoSA", "PoSA_%s_%s_sim.cfg" % (fam, c), workers=1, simulate="num=1", depth=nb * 17 + 1, timeout=2400, heap="4g")
         if r.rc != 0:
             ctx.fail("simulation run failed (%s %s) rc=%d (%s):\n%s" % (fam, c, r.rc, r.invariant_violated, r.out[-3000:]))
-        traces = r.emitted("TRACE")
-        if len(traces) < nb - 1:
-            ctx.fail("simulation printed %d behaviours, expected %d" % (len(traces), nb))
-        for router in FAMILIES[fam]:
-            _replay(ctx, b, router, c, traces, stats, "behaviours %s" % c)
-            ctx.cov["traces_validated_against_impl"] += len(traces)
+        return r.emitted("TRACE")
+
+    width = 8 if q else 3
+    for i in range(0, len(jobs), width):
+        group = jobs[i:i + width]
+        with concurrent.futures.ThreadPoolExecutor(max_workers=len(group)) as ex:
+            results = list(ex.map(generate, group))
+        for (kind, fam, g, c), items in zip(group, results):
+            if kind == "edges":
+                if len(items) < 500:
+                    ctx.fail("too few edges from PoSA_%s_%s_gen.cfg: %d" % (fam, g, len(items)))
+                ctx.sample({"family": fam, "cfg": g, "edge": items[len(items) // 3]["e"]})
+                for router in FAMILIES[fam]:
+                    s = _replay(ctx, b, router, c, items, stats, "edges %s" % g)
+                    if s["edges"] + s["abandoned"] + s["skipped_no_rule"] != len(items) and not ctx.violations:
+                        ctx.fail("driver replayed %d of %d edges (%s)" % (s["edges"], len(items), router))
+            else:
+                if len(items) < nb - 1:
+                    ctx.fail("simulation printed %d behaviours, expected %d" % (len(items), nb))
+                for router in FAMILIES[fam]:
+                    _replay(ctx, b, router, c, items, stats, "behaviours %s" % c)
+                    ctx.cov["traces_validated_against_impl"] += len(items)
+        del results
     if not q:
         for fam in [f for f in ("bsc", "heco", "pixie") if f in fams]:
             ctx.mc("MCPoSA", "PoSA_%s_A5_mc.cfg" % fam, timeout=2400)
